@@ -58,9 +58,9 @@ P = {
     "specdir": "bpf_ct",
     "design": [DESIGN],
     "gen": {"module": "Gen_CT", "cfg": "Gen_CT_cover.cfg", "thorough_cfg": "Gen_CT_cover3.cfg", "workers": 1, "heap": "4g",
-            "max": 9000, "thorough_max": 120000, "timeout": 300, "thorough_timeout": 1500},
+            "max": 9000, "thorough_max": 40000, "timeout": 300, "thorough_timeout": 1500},
     "driver": {"cmd": "ctscan"},
-    "n_random": (500, 8000),
+    "n_random": (500, 5000),
     "trace": {"module": "T_CT", "cfg": "T_CT.cfg", "heap": "4g", "timeout": 600},
     "chunk": 300000,
     "signature": signature,
@@ -139,15 +139,28 @@ def _drift(ctx):
 
 
 def run(ctx):
+    if ctx.replay:
+        # a replay directory of the F1 witness needs the environment the witness leg uses
+        Pr = dict(P)
+        try:
+            meta = json.load(open(os.path.join(ctx.replay, "meta.json")))
+        except Exception:
+            meta = {}
+        if meta.get("signature") == F1:
+            Pr["driver"] = {"cmd": "ctscan", "env": {"VERIF_CT_REVRACE": "1"}}
+            Pr["n_random"] = (0, 0)
+        Pr["design"] = []
+        pipeline.standard_check(ctx, Pr)
+        return
     pipeline.standard_check(ctx, P)
     _drift(ctx)
-    if ctx.replay or ctx.violations:
+    if ctx.violations:
         return
     # second generator: long random walks from TLC (-simulate) over 2 plain + 1 NAT pair
     P2 = dict(P)
     P2["design"] = []
     P2["gen"] = {"module": "Gen_CT", "cfg": "Gen_CT_sim.cfg", "heap": "4g", "workers": 1,
-                 "simulate": {"num": 150, "depth": 45}, "thorough_simulate": {"num": 4000, "depth": 45}}
+                 "simulate": {"num": 150, "depth": 45}, "thorough_simulate": {"num": 2000, "depth": 45}}
     P2["n_random"] = (0, 0)
     pipeline.standard_check(ctx, P2)
     _drift(ctx)
